@@ -104,6 +104,7 @@ def gen_case(st, tier):
             nd["module"] = rp.choice(["vgen", "vgen2"])
             nd.pop("resp", None)
     case["seeded"] = [i for i in case["seeded"] if nodes[i]["type"] != "rule"]
+    case["seed_none"] = [i for i in case.get("seed_none") or [] if i in case["seeded"]]
     case["max_detail_length"] = rk.choice([1000, 1000, 4000, 65535])
     case["store_skips"] = False
     case["targets"] = None
